@@ -377,7 +377,11 @@ def base_structs(T=T):
     s4 = ST("S4", list(reversed(s1.fields)))
     s5 = ST("S5", [("m_grid", ARR(ARR(T["char"], 3), 2)), ("m_l2", ARR(ARR(T["long"], 2), 2)), ("m_us", ARR(ARR(T["ushort"], 3), 2)), ("m_z", T["int"]),
                    ("m_pp", ARR(ARR(T["intp"], 2), 2))])
-    return [inner, s1, s2, s3, s4, s5]
+    # same total size in both ABIs although a member narrows (the 4 bytes saved by the guest long are eaten by padding):
+    # a "same size means same layout" shortcut would copy it bitwise; also nested by value
+    s6 = ST("S6", [("m_id", T["long"]), ("m_score", T["double"])])
+    s7 = ST("S7", [("m_k", T["short"]), ("m_rec", s6.as_field()), ("m_t", T["ulong"])])
+    return [inner, s1, s2, s3, s4, s5, s6, s7]
 
 
 def random_structs(seed, count):
